@@ -28,6 +28,8 @@ func c15Patterns() []ref.Pat {
 		seq(rep(A, 1, -1), rep(B, 1, -1)), seq(A, rep(alt(B, C), 0, -1), D), rep(A, 3, 3), seq(A, rep(B, 1, 2), C),
 		// bounded ranges with at least two optional repetitions
 		rep(A, 1, 3), seq(A, rep(B, 1, 3), C), seq(rep(A, 0, 2), B), rep(seq(A, B), 1, 3), rep(A, 2, 4),
+		// PERMUTE of three elements (all six arrival orders)
+		ref.PPermute{Items: []ref.Pat{A, B, C}},
 	}
 }
 
